@@ -41,6 +41,21 @@ func FuncSlot(tag string) templ.Component {
 	})
 }
 
+// FuncBuffered is a hand-written component that renders its children into a scratch buffer
+// of its own and then copies the result out (a component that post-processes its children).
+func FuncBuffered(tag string) templ.Component {
+	return templ.ComponentFunc(func(ctx context.Context, w io.Writer) error {
+		children := templ.GetChildren(ctx)
+		ctx = templ.ClearChildren(ctx)
+		scratch := &vrec{}
+		if err := children.Render(ctx, scratch); err != nil {
+			return err
+		}
+		_, err := io.WriteString(w, "<fb>"+tag+":"+string(scratch.b)+"</fb>")
+		return err
+	})
+}
+
 type vrec struct{ b []byte }
 
 func (r *vrec) Write(p []byte) (int, error) {
@@ -48,7 +63,7 @@ func (r *vrec) Write(p []byte) (int, error) {
 	return len(p), nil
 }
 
-const nWraps = 9
+const nWraps = 10
 
 var tagNames = []string{"a", "b", "c", "d", "e", "f", "g", "h", "i", "j", "k", "l"}
 
@@ -140,6 +155,8 @@ func refWith(s *Spec, seen map[*templ.OnceHandle]bool) string {
 				seen[k.Once] = true
 				out += "<s>" + k.Tag + ":</s>" // the handle's own component, called without a block
 			}
+		case 9:
+			out += "<fb>" + k.Tag + ":" + blk() + "</fb>"
 		}
 	}
 	return out + "</n>"
@@ -221,6 +238,10 @@ func (m *slotModel) tree(s *Spec) string {
 				out += "<s>" + k.Tag + ":</s>"
 				m.cur = saved
 			}
+		case 9:
+			own := m.cur
+			m.cur = nil
+			out += "<fb>" + k.Tag + ":" + m.block(own) + "</fb>"
 		}
 	}
 	return out + "</n>"
@@ -239,3 +260,26 @@ func VerifC13Tree() {
 	symKnown("C13-unconsumed-block-leaks-to-later-blockless-call", b.leakFn && string(w.b) == model.tree(spec))
 	symAssertEq(string(w.b), ref(spec), "every callee receives exactly the block of its own call site")
 }
+
+// VerifC13FlushPlainWriter: templ.Flush() rendered by hand-written Go code into a writer that
+// cannot be flushed: the block given to Flush must not reach a block-less slot component that
+// is rendered inside it through a non-generated layer (Join).
+func VerifC13FlushPlainWriter() {
+	inner := templ.Join(Slot("a"), Ignore("b"))
+	w := &vrec{}
+	var dst io.Writer = w
+	if symBool("flushable") {
+		dst = &flushRec{vrec: w}
+	}
+	err := templ.Flush().Render(templ.WithChildren(context.Background(), inner), dst)
+	symAssert(err == nil, "render returns nil")
+	symCover("flush-plain")
+	symAssertEq(string(w.b), "<s>a:</s><g>b</g>", "the flush block is rendered once and is not handed to the slot component inside it")
+}
+
+type flushRec struct {
+	*vrec
+	flushed int
+}
+
+func (f *flushRec) Flush() { f.flushed++ }
